@@ -23,6 +23,8 @@ fn memory(name: &str, n: usize) -> usize {
 /// indicators whose input may have any sign
 pub const ANY_SIGN: &[&str] = &["SimpleMovingAverage", "WeightedMovingAverage", "StandardDeviation", "MeanAbsoluteDeviation", "Minimum", "Maximum", "BollingerBands"];
 pub const SIGNS: &[&str] = &["positive", "any-sign", "negated"];
+/// scalar-input accumulating indicators whose arithmetic is exact on integer data with power-of-two periods and spikes
+pub const DYADIC: &[&str] = &["SimpleMovingAverage", "WeightedMovingAverage", "StandardDeviation", "MeanAbsoluteDeviation", "BollingerBands", "RateOfChange", "EfficiencyRatio"];
 
 /// a stream under a sign mode: 0 = strictly positive prices, 1 = any sign (gen::stream's shifted / signed-alphabet
 /// variants), 2 = the positive stream negated as a whole (all-negative windows with distinct values)
@@ -61,9 +63,15 @@ fn agree(case: &Case, oa: &[f64], of: &[f64], judged: &[Option<super::c03::Judge
     let name = case.ind.as_str();
     let exact = matches!(name, "Minimum" | "Maximum" | "FastStochastic");
     let (big, t) = (h.big, h.t);
+    let dyadic = case.kind == "dyadic-spike";
     for (q, (x, y)) in oa.iter().zip(of.iter()).enumerate() {
         let ok = if exact {
             x == y || (x.is_nan() && y.is_nan())
+        } else if dyadic {
+            // integer data, power-of-two spikes and periods: the long-lived instance's arithmetic is exact once the
+            // spike has passed (every intermediate is a dyadic rational of < 53 bits), the fresh one rounds at the
+            // level of the SUFFIX only — so the old spike may not show at all, not even at sqrt(tau)·spike
+            x == y || (x - y).abs() <= 1e-9 * cref.big.max(y.abs()).max(1.0)
         } else {
             // ratios: × condition number (of the suffix-only reference), gate 1e6
             let (cond, scale) = match judged.get(q).and_then(|z| z.as_ref()) {
@@ -301,6 +309,56 @@ pub fn generate(r: &mut Runner) {
         }
         r.run(c, plen > 0);
     }
+    // stage 2b: dyadic spikes — integer prices 1..8, periods 1, 2, 4, 8, a prefix containing spikes of 2^20..2^24 (10^6 times the
+    // later prices), then an integer suffix: Welford / running sums are EXACT there, so state that remembers the spike
+    // (a floor, a scale, a clamp sized from the all-time magnitude) shows at the suffix's own rounding level
+    for i in 0..(if r.tier == Tier::Quick { 240 } else { 6000 }) {
+        let name = DYADIC[i % DYADIC.len()];
+        let (np, nm) = crate::ind::arity(name).unwrap();
+        let n = *r.rng.pick(&[1usize, 2, 4, 8]);
+        let ps: Vec<usize> = (0..np).map(|_| n).collect();
+        let ms: Vec<f64> = (0..nm).map(|_| 2.0).collect();
+        let mem = memory(name, n);
+        let mut c = Case::new("C17", "dyadic-spike", name, &ps, &ms);
+        for _ in 0..n + 3 {
+            c.ops.push(Op::Next(r.rng.range(1, 8) as f64));
+        }
+        for _ in 0..r.rng.range(3, 40) {
+            let x = if r.rng.chance(0.3) { (r.rng.range(1, 3) as f64) * (1u64 << r.rng.range(20, 22)) as f64 * if r.rng.chance(0.5) { 4.0 } else { 1.0 } } else { r.rng.range(1, 8) as f64 };
+            c.ops.push(Op::Next(x));
+        }
+        c.ops.push(Op::Next((1u64 << 23) as f64));
+        c.ops.push(Op::Mark);
+        let two = [r.rng.range(1, 8) as f64, r.rng.range(1, 8) as f64];
+        for j in 0..mem + r.rng.below(2 * n + 5) {
+            c.ops.push(Op::Next(if r.rng.chance(0.5) { two[j % 2] } else { r.rng.range(1, 8) as f64 }));
+        }
+        r.run(c, true);
+    }
+    // stage 2c: micro-drift bars — one price per bar (open = high = low = close) creeping by a few 1e-10 relative per
+    // bar, volumes varying: moves far below any "jitter" dead-band yet millions of ulps wide, so the direction of every
+    // move is unambiguous and must be classified from the PREVIOUS bar alone
+    for i in 0..(if r.tier == Tier::Quick { 120 } else { 3000 }) {
+        let name = ["MoneyFlowIndex", "CommodityChannelIndex", "FastStochastic"][i % 3];
+        let (np, nm) = crate::ind::arity(name).unwrap();
+        let n = r.rng.range(1, 6);
+        let ps: Vec<usize> = (0..np).map(|_| n).collect();
+        let ms: Vec<f64> = (0..nm).map(|_| 2.0).collect();
+        let mem = memory(name, n);
+        let mut c = Case::new("C17", "micro-drift-bars", name, &ps, &ms);
+        let mut x = *r.rng.pick(&[1.0, 100.0, 2500.0]) * (1.0 + r.rng.unit());
+        let plen = r.rng.range(1, 40);
+        let slen = mem + r.rng.below(2 * n + 5);
+        for j in 0..plen + slen {
+            if j == plen {
+                c.ops.push(Op::Mark);
+            }
+            let step = (r.rng.range(1, 9) as f64) * 1e-10 * if r.rng.chance(0.7) { 1.0 } else { -1.0 };
+            x *= 1.0 + step;
+            c.ops.push(Op::Bar(crate::ind::B { o: x, h: x, l: x, c: x, v: 1000.0 * (0.5 + r.rng.unit()) }));
+        }
+        r.run(c, true);
+    }
     // stage 3: long prefixes on ONE instance (hidden update counters), placed around every round count N: variant A —
     // N + d inputs (d <= memory+2) before the suffix, i.e. the N-th update lies inside the prefix (an effect that
     // persists is seen by every compared suffix step); variant B — N − d inputs (2 <= d <= memory+2) before a suffix of
@@ -347,4 +405,4 @@ pub fn generate(r: &mut Runner) {
     }
 }
 
-pub const RULE: &str = "stage 1 (exact ties): periods 1..=4, every sequence of length 7 (quick) / 9 (thorough) over three symbols, split into an arbitrary prefix and a suffix of memory+1 inputs; stage 1b: the same over the signed alphabets {1,-3,2} (sums cancel exactly), {-1,-3,-2} (every window all-negative with distinct values) and {-2,0,3} for SMA, WMA, SD, MAD, Min, Max, BB; stage 2: 12 windowed indicators × periods 1..=4 (a third) and sampled to 128 × an arbitrary prefix (0..300 / 0..2000 inputs, half of them with every 7th value ×10^6) followed by a common suffix of at least n (n+1 for ROC, ER, MFI) inputs; for the 7 indicators that accept any sign the scalar streams are, a third each, positive, of any sign (shifted around zero / signed alphabet) and negated as a whole (all-negative windows); stage 3 (hidden update counters): every indicator × every round count N (powers of two 2^10..2^17 quick / ..2^22 thorough, and 10^3, 5·10^3, 10^4, … up to that limit) × two placements of a long prefix regenerated from a stored seed in chunks of 1..8192 inputs of freshly drawn regimes — A: N+d inputs (d <= memory+2) before the suffix (the N-th update lies in the prefix), B: N−d inputs (2 <= d <= memory+2) before a suffix longer than memory+d (the N-th update happens inside the common suffix and the steps right after it are compared) — with periods to 128, three quarters of them coprime to 10 (dividing no round count, so the ring cursor is not at slot 0 there; the rest includes powers of two), sign modes as in stage 2; all A and half of the B histories are calm (prefix chunks and suffix from walk/alt/saw only: no outliers and no flat stretches, so that tau(t)·M stays below the differences between neighbouring inputs and an ordinary input remembered, mis-ordered or mis-weighted is observable), the other B histories are wild (any regime per chunk, every 7th prefix value ×10^6, non-flat suffix). In all stages the instance that saw the whole history is compared with a fresh instance fed only the suffix at every suffix length from n (n+1) on: exactly for Minimum, Maximum, FastStochastic; tau(t)·M for the accumulating ones (sqrt(tau)·M on the SD scale), × the condition number of the suffix reference for ratios (gate 1e6). Non-trivial = non-empty prefix.";
+pub const RULE: &str = "stage 1 (exact ties): periods 1..=4, every sequence of length 7 (quick) / 9 (thorough) over three symbols, split into an arbitrary prefix and a suffix of memory+1 inputs; stage 1b: the same over the signed alphabets {1,-3,2} (sums cancel exactly), {-1,-3,-2} (every window all-negative with distinct values) and {-2,0,3} for SMA, WMA, SD, MAD, Min, Max, BB; stage 2: 12 windowed indicators × periods 1..=4 (a third) and sampled to 128 × an arbitrary prefix (0..300 / 0..2000 inputs, half of them with every 7th value ×10^6) followed by a common suffix of at least n (n+1 for ROC, ER, MFI) inputs; for the 7 indicators that accept any sign the scalar streams are, a third each, positive, of any sign (shifted around zero / signed alphabet) and negated as a whole (all-negative windows); stage 3 (hidden update counters): every indicator × every round count N (powers of two 2^10..2^17 quick / ..2^22 thorough, and 10^3, 5·10^3, 10^4, … up to that limit) × two placements of a long prefix regenerated from a stored seed in chunks of 1..8192 inputs of freshly drawn regimes — A: N+d inputs (d <= memory+2) before the suffix (the N-th update lies in the prefix), B: N−d inputs (2 <= d <= memory+2) before a suffix longer than memory+d (the N-th update happens inside the common suffix and the steps right after it are compared) — with periods to 128, three quarters of them coprime to 10 (dividing no round count, so the ring cursor is not at slot 0 there; the rest includes powers of two), sign modes as in stage 2; all A and half of the B histories are calm (prefix chunks and suffix from walk/alt/saw only: no outliers and no flat stretches, so that tau(t)·M stays below the differences between neighbouring inputs and an ordinary input remembered, mis-ordered or mis-weighted is observable), the other B histories are wild (any regime per chunk, every 7th prefix value ×10^6, non-flat suffix). In all stages the instance that saw the whole history is compared with a fresh instance fed only the suffix at every suffix length from n (n+1) on: exactly for Minimum, Maximum, FastStochastic; tau(t)·M for the accumulating ones (sqrt(tau)·M on the SD scale), × the condition number of the suffix reference for ratios (gate 1e6). Non-trivial = non-empty prefix. Stage 2b (dyadic spikes): 240 (quick) / 6000 streams of integer prices 1..8 for SMA, WMA, SD, MAD, BB, ROC, ER with periods 1, 2, 4, 8, the prefix containing spikes of 2^20..2^24 and ending in one of 2^23, the suffix integer again: the long-lived instance's arithmetic is exact there, so both outputs must agree to 1e-9 of the SUFFIX magnitude (state sized from the all-time magnitude shows). Stage 2c (micro-drift bars): 120 / 3000 streams of one-price bars creeping by 1..9e-10 relative per bar with varying volume, periods 1..6, for MFI, CCI, FastStochastic.";
